@@ -41,7 +41,8 @@ TEXTS = ["note", "a -- b", "---- sec ----", "create table x (y int);", "a, b (c)
          "the customer's data", "it's (a, b), isn't it", "step 1(( open", "closing )) twice",
          # characters that str.splitlines() treats as line ends but the parser must not: form feed, vertical tab, NEL, U+2028; and a multi-line
          # block-comment line that begins with a skip word / a statement word
-         "page\x0cbreak zz int", "a\x0bb text", "nel\x85after it", "sep\u2028rest int", "Use the surrogate key", "insert rows later", "Create it first"]
+         "page\x0cbreak zz int", "a\x0bb text", "nel\x85after it", "sep\u2028rest int", "Use the surrogate key", "insert rows later", "Create it first",
+         "parsed with input.regex, see wiki"]
 MARKED_TEXTS = ["/* -- x */", "a /* b", "x */ y", "# z", "-- /* x", "a /* b */"]
 WHOLE = {"--": lambda t: ["-- %s" % t], "--nosp": lambda t: ["--%s" % t], "#": lambda t: ["# %s" % t], "b1": lambda t: ["/* %s */" % t],
          "b1nosp": lambda t: ["/*%s*/" % t], "b2": lambda t: ["/* %s" % t, "*/"], "b3": lambda t: ["/*", " %s" % t, "*/"],
